@@ -392,7 +392,9 @@ func c03GenMsg(t *rapid.T) (gen.BS, int) {
 		// Sizes at and around the daemon's and the usual buffer sizes (16 KiB is where dockerd
 		// splits long lines, 4 KiB / 64 KiB are common read buffers), with and without a final
 		// line break. Rep+1 copies of a chunk whose length divides the size.
-		size := rapid.SampledFrom([]int{16384, 16384, 16383, 16385, 4096, 4095, 32768, 65536, 65535, 8192}).Draw(t, "boundary-size")
+		size := rapid.SampledFrom([]int{16384, 16384, 16383, 16385, 4096, 4095, 32768, 65536, 65535, 8192,
+			// ... and the sizes somebody may pick as "more than a frame can be": a record is as long as its header says
+			1 << 20, 1<<20 + 1, 1<<20 - 40, 2<<20 + 3}).Draw(t, "boundary-size")
 		nl := rapid.Bool().Draw(t, "boundary-newline")
 		for _, chunk := range []int{64, 32, 16, 8, 5, 3, 1} {
 			if size%chunk == 0 {
